@@ -101,6 +101,7 @@ type logCase struct {
 	F     logtest.RecordFactory
 	Field string
 	Class string
+	Solo  bool // not combined with other variants in one batch
 }
 
 func expectLog(f logtest.RecordFactory) item {
@@ -351,7 +352,11 @@ func logFamilies() [][]logCase {
 			f.InstrumentationScope = &instrumentation.Scope{Name: "n", Attributes: attribute.NewSet(a)}
 		}))
 	}
-	fam = append(fam, mk("resource", "", func(f *logtest.RecordFactory) { f.Resource = resource.NewWithAttributes("https://example.test/only-url") }))
+	// a resource with a schema URL and no attributes: alone in its batch (next to a record without
+	// resource it would be the same resource under another URL, which is not judged)
+	solo := mk("resource", "", func(f *logtest.RecordFactory) { f.Resource = resource.NewWithAttributes("https://example.test/only-url") })
+	solo.Solo = true
+	fam = append(fam, solo)
 	fam = append(fam, mk("resource", "", func(f *logtest.RecordFactory) { f.Resource = resource.NewSchemaless(attrFamily()...) }))
 	fam = append(fam, mk("scope", "", func(f *logtest.RecordFactory) { f.InstrumentationScope = &instrumentation.Scope{SchemaURL: "https://example.test/only-url"} }))
 	fam = append(fam, mk("scope", "", func(f *logtest.RecordFactory) { f.InstrumentationScope = &instrumentation.Scope{Version: "only-version"} }))
@@ -429,7 +434,7 @@ func TestVerifC13Log(t *testing.T) {
 				}
 				for i := range fam { // adjacent pairs in one batch, same resource and scope
 					j := (i + 1) % len(fam)
-					if r.Want() {
+					if r.Want() && !fam[i].Solo && !fam[j].Solo {
 						c.check(fmt.Sprintf("family %d (%s) variants %d+%d", fi, fam[i].Field, i, j), []logCase{fam[i], fam[j]})
 					}
 				}
